@@ -76,6 +76,9 @@ func (op Op) doc() string {
 }
 
 type Case struct {
+	// ReqCtx: every operation runs under a context of its own that is
+	// cancelled right after the call returned (request-scoped contexts).
+	ReqCtx bool `json:"req_ctx,omitempty"`
 	Store string `json:"store"` // memory sqlite sqlitemem durable
 	Chunk int    `json:"chunk,omitempty"`
 	Batch int    `json:"batch,omitempty"` // sqlite stream batch size
@@ -491,7 +494,16 @@ func Run(c *Case) *vkit.Outcome {
 	}
 	defer func() { closeStore(r.b) }()
 	for i, op := range c.Ops {
-		r.step(i, op)
+		if c.ReqCtx {
+			// a request-scoped context: cancelled as soon as the call has returned
+			ctx, cancel := context.WithCancel(context.Background())
+			r.ctx = ctx
+			r.step(i, op)
+			cancel()
+			r.ctx = context.Background() // closing checks of the run
+		} else {
+			r.step(i, op)
+		}
 		hard := false
 		for _, v := range o.Viol {
 			if _, known := vkit.IsKnown("C10", v.Sig); !known {
